@@ -26,7 +26,7 @@ package action
 //@ ghost func rawBytesOf(t RawTx) bytes
 
 // ctxOK: what every handler may rely on about the context it is given (built by app.context.Action)
-//@ ghost func ctxOK(ctx *Context) bool = ctxFeeOK(ctx) && ctx.Domains != nil && has(ctx.Currencies.nameMap, ctx.FeePool.feeOpt.FeeCurrency.Name) && ctx.Header != nil && ctx.FeePool.state == ctx.State && ctx.Domains.State == ctx.State && ctx.GovernanceStore != nil && ctx.Validators != nil && ctx.Witnesses != nil && ctx.Delegators != nil && ctx.NetwkDelegators != nil && ctx.EvidenceStore != nil && ctx.ETHTrackers != nil && ctx.ProposalMasterStore != nil && ctx.RewardMasterStore != nil && ctx.StateDB != nil
+//@ ghost func ctxOK(ctx *Context) bool = ctxFeeOK(ctx) && ctx.Domains != nil && has(ctx.Currencies.nameMap, ctx.FeePool.feeOpt.FeeCurrency.Name) && ctx.Header != nil && ctx.FeePool.state == ctx.State && ctx.Domains.State == ctx.State && ctx.GovernanceStore != nil && ctx.Validators != nil && ctx.Witnesses != nil && ctx.Delegators != nil && ctx.NetwkDelegators != nil && ctx.NetwkDelegators.Deleg != nil && ctx.NetwkDelegators.Rewards != nil && ctx.EvidenceStore != nil && ctx.ETHTrackers != nil && ctx.ProposalMasterStore != nil && ctx.RewardMasterStore != nil && ctx.StateDB != nil
 
 //@ interface Tx
 //@   method Validate
